@@ -602,7 +602,12 @@ def read_submod_def(line: str):
     parent_match = FRegex.WORD.match(trailing_line)
     if parent_match:
         parent_name = parent_match.group(0).lower()
-        if len(trailing_line) > parent_match.end(0) + 1:
+        # The name follows the parent identifier, which for the child of a
+        # submodule is "ancestor_module : parent_submodule"
+        close_paren = trailing_line.find(")")
+        if close_paren >= 0:
+            trailing_line = trailing_line[close_paren + 1 :].strip()
+        elif len(trailing_line) > parent_match.end(0) + 1:
             trailing_line = trailing_line[parent_match.end(0) + 1 :].strip()
         else:
             trailing_line = ""
